@@ -99,6 +99,12 @@ def gen_cases(ctx, scale=1.0, modes=('generate', 'verify')):
                 i = rng.randrange(len(sizes))
                 if sizes[i]:
                     c['flips'].append([i, rng.randrange(sizes[i])])
+            if dmg == 'none' and npieces >= 3 and rng.random() < 0.35:
+                # a misplaced write: one full piece holds the bytes of another piece of the same torrent
+                full = total // L
+                if full >= 2:
+                    dst, src = rng.sample(range(full), 2)
+                    c['patches'] = copy_piece_patches(c, dst, src)
             c['cb'] = rng.choice([None, {'table': {}}])
         else:
             c['cb'] = rng.choice([None, {'table': {}}])
@@ -111,6 +117,33 @@ def gen_cases(ctx, scale=1.0, modes=('generate', 'verify')):
                         c['disk'][i] = rng.choice([sizes[i] + 1] + ([sizes[i] - 1] if sizes[i] > 1 else []))
         cases.append(c)
     return cases
+
+
+def model_flips(c):
+    """positions whose byte differs from the recorded content, for the sequential model: byte flips and patches"""
+    return list(c['flips']) + [[f, o] for f, o, _ in (c.get('patches') or [])]
+
+
+def copy_piece_patches(c, dst, src):
+    """byte patches that overwrite piece `dst` of the concatenated stream with the bytes of piece `src` (a misplaced
+    write: the corrupt piece's data equals another piece of the same torrent)"""
+    from harness.impl import content as _content
+    L = c['L']
+    blobs = [_content.file_bytes(c['cseed'], i, s) for i, s in enumerate(c['sizes'])]
+    stream = b''.join(blobs)
+    out = []
+    starts = []
+    pos = 0
+    for s_ in c['sizes']:
+        starts.append(pos)
+        pos += s_
+    for k in range(L):
+        a, b = dst * L + k, src * L + k
+        if a >= len(stream) or b >= len(stream) or stream[a] == stream[b]:
+            continue
+        fi = max(i for i in range(len(starts)) if starts[i] <= a and a < starts[i] + c['sizes'][i])
+        out.append([fi, a - starts[fi], stream[b]])
+    return out
 
 
 def needs_c02(c):
@@ -131,6 +164,23 @@ def model_cfg(c, c02reply):
              for k, v in ((c['cb'] or {}).get('table') or {}).items()]
     return {'N': c['threads'], 'cap': 3 * c['threads'], 'items': items, 'readFault': c.get('read_fault_item'),
             'refuse': list(c.get('refuse') or []), 'raiseOnBad': raise_on_bad, 'cbByDone': table}
+
+
+def run_optimized(cases, level=1, timeout=600):
+    """the same cases in a child interpreter started with -O / -OO (assert statements compiled away)"""
+    import subprocess
+    from harness.sched import optworker
+    env = dict(os.environ, PYTHONPATH=common.VERIF, VERIF_REPO=common.REPO)
+    p = subprocess.run(['/venv/bin/python', '-' + 'O' * level, '-B', '-m', 'harness.sched.optworker'], cwd=common.VERIF, env=env,
+                       input='\n'.join(json.dumps(c) for c in cases) + '\n', capture_output=True, text=True, timeout=timeout)
+    lines = [l for l in p.stdout.splitlines() if l.strip()]
+    if not lines or json.loads(lines[0]).get('optimize') != level or len(lines) != len(cases) + 1:
+        raise RuntimeError(f'optimized worker failed (rc {p.returncode}): {p.stderr[-800:]}')
+    return [(c, optworker.unjson(json.loads(l))) for c, l in zip(cases, lines[1:])]
+
+
+def _run_chunk_opt(cases):
+    return run_optimized(cases) if cases else []
 
 
 def expected_outcome(c, c02reply):
@@ -170,13 +220,15 @@ def _match_expected(exp, res):
     return False
 
 
-def evaluate(ctx, drv, cases, prop='C03'):
+def evaluate(ctx, drv, cases, prop='C03', optimized=False):
     # sequential model (C02) for verify cases: item kinds + expected outcome
     vidx = [i for i, c in enumerate(cases) if needs_c02(c)]
     c02 = drv.run([{'op': 'c02.verify', 'L': cases[i]['L'], 'sizes': cases[i]['sizes'], 'disk': cases[i]['disk'],
-                    'flips': cases[i]['flips'], 'single': False, 'pathIsDir': True} for i in vidx])
+                    'flips': model_flips(cases[i]), 'single': False, 'pathIsDir': True} for i in vidx])
     c02by = dict(zip(vidx, c02))
-    results = common.pmap(_run_chunk, common.split(cases, common.NPROC * 4))
+    # optimized=True: the same cases in child interpreters started with -O (assert statements compiled away)
+    results = common.pmap(_run_chunk_opt if optimized else _run_chunk,
+                          common.split(cases, common.NPROC if optimized else common.NPROC * 4))
     flat = [x for chunk in results for x in chunk]
     reqs = []
     for i, (c, obs) in enumerate(flat):
@@ -191,7 +243,7 @@ def evaluate(ctx, drv, cases, prop='C03'):
     for i, ((c, obs), rep) in enumerate(zip(flat, replies)):
         case = {k: c[k] for k in ('mode', 'L', 'sizes', 'paths', 'cseed', 'threads', 'disk', 'flips', 'cb',
                                   'interval', 'strategy', 'max_steps') if k in c}
-        for k in ('refuse', 'read_fault', 'read_fault_item'):
+        for k in ('refuse', 'read_fault', 'read_fault_item', 'patches'):
             if c.get(k) is not None:
                 case[k] = c[k]
         ntimeouts = sum(1 for e in obs['trace'] if e[2] == 'timeout')
@@ -199,7 +251,9 @@ def evaluate(ctx, drv, cases, prop='C03'):
         ctx.case(key=json.dumps(case, sort_keys=True),
                  nontrivial=(c['threads'] >= 2 or ntimeouts > 0) and
                             (npieces > 3 * c['threads'] or any(d != 'ok' for d in c['disk']) or bool(c['flips'])),
-                 kind=f"{c['mode']}/{c['strategy']['kind']}/N{c['threads']}")
+                 kind=f"{c['mode']}/{c['strategy']['kind']}/N{c['threads']}" + ('/python -O' if optimized else ''))
+        if optimized:
+            case['python'] = '-O'
         ctx.dist['timeouts-fired'] += ntimeouts
         ctx.dist['steps'] += obs['steps']
         ctx.sample({'case': case, 'trace_head': obs['trace'][:12], 'outcome': obs['outcome'],
@@ -296,6 +350,8 @@ def run(ctx, drv):
         '(FIFO queues, blocking put/get, Event, Thread.start/join/is_alive) are trusted to match the standard library',
     ]
     evaluate(ctx, drv, gen_cases(ctx))
+    if not ctx.violations:
+        evaluate(ctx, drv, gen_cases(ctx, scale=0.08), optimized=True)
 
 
 def directed_cases(ctx):
@@ -353,6 +409,6 @@ def evaluate_directed(ctx, drv, cases):
 
 def replay(ctx, drv, rp):
     c = dict(rp['case'])
-    evaluate(ctx, drv, [c])
+    evaluate(ctx, drv, [c], optimized=c.pop('python', None) == '-O')
     return {'fails': bool(ctx.violations or ctx.corr_breaks), 'violations': ctx.violations,
             'corr_breaks': ctx.corr_breaks}
